@@ -57,6 +57,53 @@ func returnsOnly(fd *ast.FuncDecl, want string) bool {
 	return ok && len(rs.Results) == 1 && exprString(rs.Results[0]) == want
 }
 
+// graveyardCleanupGuards: the conditions of the if statements that enclose the removal of a
+// re-inserted key from the graveyard in modify, outermost first ("!oldExists;existed": for every
+// new key, whatever else holds, if the graveyard has it)
+func graveyardCleanupGuards(mod *ast.FuncDecl) string {
+	var path []string
+	var found string
+	var walk func(n ast.Node, conds []string)
+	walk = func(n ast.Node, conds []string) {
+		if n == nil || found != "" {
+			return
+		}
+		switch x := n.(type) {
+		case *ast.IfStmt:
+			c := append(append([]string{}, conds...), exprString(x.Cond))
+			walk(x.Body, c)
+			if x.Else != nil {
+				walk(x.Else, append(append([]string{}, conds...), "else:"+exprString(x.Cond)))
+			}
+			return
+		case *ast.BlockStmt:
+			for _, st := range x.List {
+				walk(st, conds)
+			}
+			return
+		case *ast.ExprStmt:
+			if strings.Contains(exprString(x.X), "GraveyardIndexPos).delete(idKey)") {
+				found = strings.Join(conds, ";")
+			}
+			return
+		case *ast.SwitchStmt:
+			walk(x.Body, append(append([]string{}, conds...), "switch"))
+			return
+		case *ast.CaseClause:
+			for _, st := range x.Body {
+				walk(st, append(append([]string{}, conds...), "case"))
+			}
+			return
+		case *ast.ForStmt:
+			walk(x.Body, append(append([]string{}, conds...), "for"))
+			return
+		}
+	}
+	_ = path
+	walk(mod.Body, nil)
+	return found
+}
+
 // extractTable: the write path of a table (write_txn.go modify / delete), the collector's low
 // watermark (graveyard.go) and the change iterator's cursors (iterator.go, deletetracker.go).
 func extractTable(repo string, facts Facts) (string, string) {
@@ -86,7 +133,7 @@ func extractTable(repo string, facts Facts) (string, string) {
 		"modifyAllocatesRevision":    before(incPos(mod, "table.revision"), callPos(mod, "idIndexTxn.insert(")),
 		"casNeedsExistingAndEqual":   has(mc, "guardRevision>0") && has(mc, "!oldExists") && has(mc, "oldObj.revision!=guardRevision"),
 		"rejectedCasRestoresRevision": countAssign(mod, "table.revision", "oldRevision") == 2,
-		"reinsertClearsGraveyard":    before(callPos(mod, "revIndexTxn.insert("), callPos(mod, "GraveyardIndexPos).delete(idKey)")),
+		"reinsertClearsGraveyard":    before(callPos(mod, "revIndexTxn.insert("), callPos(mod, "GraveyardIndexPos).delete(idKey)")) && graveyardCleanupGuards(mod) == "!oldExists;existed",
 		"secondaryAfterPrimary":      before(callPos(mod, "idIndexTxn.insert("), callPos(mod, ".reindex(idKey,oldObj,obj)")),
 		// delete
 		"deleteRejectsUnlocked":      has(dc, "!table.locked") && has(dc, "txn==nil"),
